@@ -1,17 +1,34 @@
 ---------------------------- MODULE VSwitch_conc ----------------------------
-(* Linearizability of concurrent GetOne / Block against the sequential specification.          *)
-(* Log: reset(cloud) | invoke(c, op, args) | return(c, res, after).  The linearization point    *)
-(* of each call is a silent step between its invoke and its return; the cloud is static and     *)
-(* nothing expires during a round, so which entries a call described is left to the spec (F).   *)
+(* Concurrent GetOne / Block against the sequential specification.                               *)
+(* Log: reset(cloud) | invoke(c, op, args) | return(c, res, after).                              *)
+(* Block is atomic: its linearization point is a silent step between its invoke and its return.  *)
+(* GetOne is NOT atomic in the implementation (it looks the candidates up one after the other,   *)
+(* each lookup may take a round trip to the cloud, 'most' reads every candidate twice), and the   *)
+(* property does not ask for atomicity. What it asks of a selection under concurrent Block calls  *)
+(* is judged on what the call can have SEEN: obs[c][id] collects every value the cache entry of   *)
+(* candidate id had while call c was in progress (fills are silent steps of any call in progress  *)
+(* that names the id; the cloud is static and nothing expires during a round). The result must be *)
+(* explainable by one observed value per look at a candidate:                                     *)
+(*   - a chosen vSwitch was seen in the requested zone (or as fall-back) with free addresses;     *)
+(*   - 'ordered': every candidate before it can have been seen ineligible; 'most': every other    *)
+(*     candidate can have been seen ineligible or with no more free addresses;                    *)
+(*   - "none": every candidate can have been seen ineligible (and, with fall-back, unusable).     *)
+(* A vSwitch blocked BEFORE the call began (and filled before that) offers only its blocked value *)
+(* to the call: choosing it is rejected ("not chosen again until its cache entry expires").       *)
 EXTENDS VSwitch, Json, IOUtils, TLCExt
 
 CONSTANT Callers
 Log == ndJsonDeserialize(IOEnv.VERIF_TRACE)
-VARIABLES l, st      \* st[c] = [pc |-> "idle"|"invoked"|"done", op, args, res]
+VARIABLES l, st      \* st[c] = [pc |-> "idle"] | [pc |-> "invoked", e, obs] | [pc |-> "done", ...]
 
 Idle == [pc |-> "idle"]
 IsEv(k) == l <= Len(Log) /\ Log[l].ev = k /\ l' = l + 1
 ToCloud(c) == [id \in Ids |-> IF c[id].free < 0 THEN Gone ELSE [zone |-> c[id].zone, free |-> c[id].free]]
+ValOf(x) == [zone |-> x.zone, free |-> x.free]
+NoObs == [id \in Ids |-> {}]
+InCall(c, id) == st[c].pc = "invoked" /\ st[c].e.op = "getone" /\ id \in Range(st[c].e.ids)
+(* every call in progress that names id sees the entry's new value *)
+Seen(id, v) == [c \in Callers |-> IF InCall(c, id) THEN [st[c] EXCEPT !.obs = [@ EXCEPT ![id] = @ \cup {v}]] ELSE st[c]]
 
 TReset == /\ IsEv("reset")
           /\ cloud' = ToCloud(Log[l].cloud)
@@ -20,34 +37,63 @@ TReset == /\ IsEv("reset")
           /\ st' = [c \in Callers |-> Idle]
 TInvoke == /\ IsEv("invoke")
            /\ st[Log[l].c].pc = "idle"
-           /\ st' = [st EXCEPT ![Log[l].c] = [pc |-> "invoked", e |-> Log[l]]]
+           /\ st' = [st EXCEPT ![Log[l].c] = [pc |-> "invoked", e |-> Log[l],
+                                              obs |-> [id \in Ids |-> IF Live(id) THEN {ValOf(cache[id])} ELSE {}]]]
            /\ UNCHANGED vars
-Lin(c) == /\ l <= Len(Log) /\ UNCHANGED l
-          /\ st[c].pc = "invoked"
-          /\ LET e == st[c].e IN
-             IF e.op = "block"
-             THEN Block(e.id) /\ st' = [st EXCEPT ![c] = [pc |-> "done", res |-> "", after |-> <<>>]]
-             ELSE IF e.op = "shared"      \* reading back a slice that concurrent calls were given: C17.slice
-             THEN UNCHANGED vars /\ st' = [st EXCEPT ![c] = [pc |-> "done", res |-> "", after |-> e.ids]]
-             ELSE \E F \in SUBSET Range(e.ids), r \in Range(e.ids) \cup {"none"} :
-                    /\ GetOne(e.zone, e.ids, e.pol, e.ign, F, r, e.ids)
-                    /\ st' = [st EXCEPT ![c] = [pc |-> "done", res |-> r, after |-> e.ids]]
+(* a call in progress describes a candidate that is not cached (the first to do so; the others find it cached) *)
+Fill(id) == /\ l <= Len(Log) /\ UNCHANGED l
+            /\ ~Live(id) /\ cloud[id] # Gone
+            /\ \E c \in Callers : InCall(c, id)
+            /\ cache' = [cache EXCEPT ![id] = [zone |-> cloud[id].zone, free |-> cloud[id].free, exp |-> now + TTL]]
+            /\ st' = Seen(id, ValOf(cloud[id]))
+            /\ UNCHANGED <<cloud, now, blockedUntil, last>>
+LinBlock(c) == /\ l <= Len(Log) /\ UNCHANGED l
+               /\ st[c].pc = "invoked" /\ st[c].e.op = "block"
+               /\ LET id == st[c].e.id IN
+                  /\ Block(id)
+                  /\ st' = [(IF Live(id) THEN Seen(id, [zone |-> cache[id].zone, free |-> 0]) ELSE st) EXCEPT ![c] = [pc |-> "done"]]
+
+(* what call c can have seen of candidate id *)
+El(v, z) == v.zone = z /\ v.free > 0
+Fb(v, z) == v.zone # z /\ v.free > 0
+Looked(o, id)     == o[id] # {} \/ cloud[id] = Gone
+CanBeEl(o, id, z)   == \E v \in o[id] : El(v, z)
+CanBeInel(o, id, z) == cloud[id] = Gone \/ \E v \in o[id] : ~El(v, z)
+CanBeFb(o, id, z)   == \E v \in o[id] : Fb(v, z)
+CanBeNoFb(o, id, z) == cloud[id] = Gone \/ \E v \in o[id] : ~Fb(v, z)
+Before(ids, r) == LET i == CHOOSE i \in 1..Len(ids) : ids[i] = r /\ \A j \in 1..(i - 1) : ids[j] # r IN { ids[j] : j \in 1..(i - 1) }
+
+Explained(e, o, r) ==
+    LET S == Range(e.ids)  z == e.zone  ord == e.pol \in {"ordered", ""} IN
+    \/ /\ r \in S /\ CanBeEl(o, r, z)                                                    \* C17.member + zone + free
+       /\ ord => \A id \in Before(e.ids, r) : Looked(o, id) /\ CanBeInel(o, id, z)        \* C17.ordered
+       /\ e.pol = "most" => \A id \in S : Looked(o, id) /\                                \* C17.most
+              (CanBeInel(o, id, z) \/ \E v \in o[id], w \in o[r] : El(w, z) /\ v.free <= w.free)
+    \/ /\ r \in S /\ e.ign /\ CanBeFb(o, r, z)                                          \* zone fall-back only when enabled and needed
+       /\ \A id \in S : Looked(o, id) /\ CanBeInel(o, id, z)
+       /\ ord => \A id \in Before(e.ids, r) : CanBeNoFb(o, id, z)
+       /\ e.pol = "most" => \A id \in S : CanBeNoFb(o, id, z) \/ \E v \in o[id], w \in o[r] : Fb(w, z) /\ v.free <= w.free
+    \/ /\ r = "none"
+       /\ \A id \in S : Looked(o, id) /\ CanBeInel(o, id, z) /\ (e.ign => CanBeNoFb(o, id, z))
+
 TReturn == /\ IsEv("return")
            /\ LET c == Log[l].c IN
-              /\ st[c].pc = "done"
-              /\ Log[l].op = "getone" => st[c].res = Log[l].res /\ st[c].after = Log[l].after
-              /\ Log[l].op = "shared" => st[c].after = Log[l].after
+              /\ CASE Log[l].op = "block"  -> st[c].pc = "done"
+                   [] Log[l].op = "shared" -> st[c].pc = "invoked" /\ st[c].e.ids = Log[l].after     \* C17.slice: a slice concurrent calls were given
+                   [] OTHER -> /\ st[c].pc = "invoked"
+                               /\ Log[l].after = st[c].e.ids                                        \* C17.slice
+                               /\ Explained(st[c].e, st[c].obs, Log[l].res)
               /\ st' = [st EXCEPT ![c] = Idle]
            /\ UNCHANGED vars
 
 TCloudInit == { [id \in Ids |-> Gone] }
 TInit == Init /\ l = 1 /\ st = [c \in Callers |-> Idle]
-TNext == TReset \/ TInvoke \/ (\E c \in Callers : Lin(c)) \/ TReturn
+TNext == TReset \/ TInvoke \/ (\E id \in Ids : Fill(id)) \/ (\E c \in Callers : LinBlock(c)) \/ TReturn
 TSpec == TInit /\ [][TNext]_<<vars, l, st>>
 
 HighWater == IF l > TLCGet(1) THEN TLCSet(1, l) ELSE TRUE
 ASSUME TLCSet(1, 0)
-PropInv == ChosenFromCandidates /\ ZoneRespected /\ HasFree
+PropInv == TRUE      \* the clauses are in Explained (the sequential trace specification keeps the state invariants)
 NotAccepted == ~(l > Len(Log))
 Report == PrintT(<<"HIGHWATER", TLCGet(1)>>)
 =============================================================================
